@@ -294,6 +294,34 @@ func VerifC09_Ordering() {
 		}
 	}
 	fp.AssertUnchanged("C17/cache-object-mutated-by-rolling-sync")
+	if faulty || err != nil {
+		return
+	}
+	// second step of the same rollout: the latest revision now comes out of the
+	// lister cache and receives a new claim
+	r.markHealthy()
+	r.w.Srv.ResetLog()
+	r.pc.SnapshotFromStore()
+	fp2 := verifFingerprint(verifListerItems(r.pc), verifRevItems(r.pc))
+	err = r.pc.syncParentObject(r.pc.W.Srv.All(r.parentRes.Name)[0])
+	rt.Assert(err == nil, "second-step/error")
+	sawChild = false
+	nChild = 0
+	for _, q := range r.w.Srv.Log {
+		if verifIsRevWrite(q) {
+			rt.Assert(!sawChild, "second-step/revision-write-after-child-write")
+		}
+		if r.isChildWrite(q) {
+			nChild++
+			sawChild = true
+		}
+	}
+	rt.Assert(nChild == 1, "second-step/expected-exactly-one-child-moved")
+	for _, n := range r.names {
+		rt.Assert(r.claimCount(n) <= 1, "second-step/child-claimed-by-more-than-one-revision")
+	}
+	fp2.AssertUnchanged("C17/cached-revision-mutated-by-second-rolling-step")
+	rt.Cover("second-step")
 }
 
 func verifListerItems(p *verifPC) []*unstructured.Unstructured {
